@@ -230,6 +230,12 @@ func (v *valuesVisitor) valuesSatisfiesNamedType(value ast.Value, definitionType
 		return true
 	}
 
+	if value.Kind == ast.ValueKindVariable {
+		// the whole variable type has to fit the position (spec 5.8.5 AreTypesCompatible), not only its named
+		// type: a list variable does not fit a named position
+		return v.variableValueSatisfiesDefinitionType(value, definitionTypeRef)
+	}
+
 	typeName := v.definition.ResolveTypeNameBytes(definitionTypeRef)
 	node, exists := v.definition.Index.FirstNodeByNameBytes(typeName)
 	if !exists {
